@@ -311,7 +311,7 @@ def run(ctx):
     cases = list(CORPUS)
     if ctx.replay_cases:
         cases = [(c["kind"], c["tree"], c["old"], c.get("new")) for c in ctx.replay_cases if "kind" in c] + cases
-    for _ in range(ctx.n(1400, 16000)):
+    for _ in range(ctx.n(1100, 16000)):
         tree = gen_root(rng)
         kind = rng.choice(["unmerge", "uninstall", "uninstall", "replace", "replace"])
         if rng.random() < 0.5:
